@@ -1,8 +1,8 @@
 package main
 
 import (
-	"go/token"
 	"fmt"
+	"go/token"
 	"strings"
 
 	"golang.org/x/tools/go/ssa"
@@ -10,10 +10,10 @@ import (
 
 func init() {
 	register(&ruleSet{
-		id:         "C15",
-		title:      "array methods behave like an ideal list",
-		run:        runC15,
-		decided:    "the receiver a native method gets is bound per lookup in a fresh cell (no store of a receiver into a cell that outlives the lookup; prototype cells are never handed out as lvalues); each array method reads / writes the receiver it is given in the documented way (method table as normalised dataflow: push appends one fresh cell and returns the array, pop/popfirst return the last/first element or null when empty and re-slice, length, contains in order via Compare == 0); sort works on a fresh slice of fresh cells with a stable sort API, numeric comparison under the all-numbers scan and string-form comparison otherwise, without storing to the receiver; index resolution counts negative indices from the end and rejects an index before the start; the fill loop appends one fresh null cell per slot." +
+		id:    "C15",
+		title: "array methods behave like an ideal list",
+		run:   runC15,
+		decided: "the receiver a native method gets is bound per lookup in a fresh cell (no store of a receiver into a cell that outlives the lookup; prototype cells are never handed out as lvalues); each array method reads / writes the receiver it is given in the documented way (method table as normalised dataflow: push appends one fresh cell and returns the array, pop/popfirst return the last/first element or null when empty and re-slice, length, contains in order via Compare == 0); sort works on a fresh slice of fresh cells with a stable sort API, numeric comparison under the all-numbers scan and string-form comparison otherwise, without storing to the receiver; index resolution counts negative indices from the end and rejects an index before the start; the fill loop appends one fresh null cell per slot." +
 			" contains decides equality by Value.Equals (the == relation, unset equals nothing); for an array root the pattern rules see each element's own cell; pushed values are copies made by copyValue.",
 		notDecided: "equivalence with a list model over operation histories; the slice-header aliasing between two references to one array (reported under C09/R2, known finding).",
 	})
@@ -28,7 +28,7 @@ func runC15(c *Ctx) {
 	equalityAgreement(c, "R6")
 	c15NestedCalls(c)
 	c.shared("R7", "C02/R4", "a method invoked on $ acts on the array inside the document: for an array root the pattern rules see each element's own cell, not a copy of its value (a copy carries a private slice header)", keyHas("array-root-per-element"), c02R4)
-	c.shared("R5", "C09/R3", "push stores a copy of its argument made by copyValue: the stored element is a value of the same kind in a cell of its own (a null that shares the caller's cell changes when the caller's variable does)", keyHas("copy Value", "copy-on-insert ExprCall.Args"), c09R3)
+	c.shared("R5", "C09/R3", "push stores a copy of its argument made by copyValue: the stored element is a value of the same kind in a cell of its own (a null that shares the caller's cell changes when the caller's variable does)", keyHas("copy Value", "copy-on-insert ExprCall.Args", "copy-on-insert ExprArray", "copy-flag-"), c09R3)
 }
 
 // receiverPerCall (= C10/R3): method lookup must not write the receiver into shared cells.
@@ -531,7 +531,7 @@ func equalityAgreement(c *Ctx, rule string) {
 		c.checkArm(rule, "Value.Equals", eq, armSpec{
 			Results: []string{"false", "((*lang.Value).Compare(v, b)#0 == 0)"},
 			Effects: []string{},
-			Guards: map[string][]string{"((*lang.Value).Compare(v, b)#0 == 0)": {"v.Tag != ValueUnknown", "b.Tag != ValueUnknown", "(*lang.Value).Compare(v, b)#1 == nil"}},
+			Guards:  map[string][]string{"((*lang.Value).Compare(v, b)#0 == 0)": {"v.Tag != ValueUnknown", "b.Tag != ValueUnknown", "(*lang.Value).Compare(v, b)#1 == nil"}},
 			Source:  "the == relation: false when either side is unset, else Compare == 0",
 		})
 	}
